@@ -309,7 +309,9 @@ def func_adl_parameterized_call(
     return decorator
 
 
-def _fill_in_default_arguments(func: Callable, call: ast.Call) -> Tuple[ast.Call, Type]:
+def _fill_in_default_arguments(
+    func: Callable, call: ast.Call, has_receiver: bool = False
+) -> Tuple[ast.Call, Type]:
     """Given a call and the function definition:
 
     * Defaults are filled in
@@ -323,6 +325,7 @@ def _fill_in_default_arguments(func: Callable, call: ast.Call) -> Tuple[ast.Call
     Args:
         func (Callable): The function definition
         call (ast.Call): The ast call site to be modified
+        has_receiver (bool): The first parameter is the object a method is called on
 
     Raises:
         ValueError: Missing arguments, etc.
@@ -346,9 +349,12 @@ def _fill_in_default_arguments(func: Callable, call: ast.Call) -> Tuple[ast.Call
     # parameters: calls to them keep exactly the arguments the user wrote.
     is_stream_operator = getattr(ObjectStream, getattr(func, "__name__", ""), None) is func
     parameters = [] if is_stream_operator else list(sig.parameters.values())
+    if has_receiver:
+        # The object the method is called on arrives in the first parameter, whatever its name
+        parameters = parameters[1:]
 
     for param in parameters:
-        if param.name != "self" and param.kind not in (
+        if param.kind not in (
             param.VAR_POSITIONAL,
             param.VAR_KEYWORD,
         ):
@@ -692,7 +698,12 @@ def remap_by_types(
             for base_obj in base_obj_list:
                 # Do basic static analysis without doing any call backs.
                 default_args_node, return_annotation_raw = _fill_in_default_arguments(
-                    base_obj.method, r_node
+                    base_obj.method,
+                    r_node,
+                    has_receiver=inspect.isfunction(base_obj.method)
+                    and not isinstance(
+                        inspect.getattr_static(base_obj.method_class, m_name, None), staticmethod
+                    ),
                 )
                 if found_untyped is None and base_obj.obj_type is obj_type:
                     # The object's own class has the method: whatever we learn about the type
